@@ -6,7 +6,7 @@ from common import Report
 MANIFEST = dict(
     technique='Coq proof over the error-flow model (error values as terms; inductive closure over the table of ALL error construction / wrapping sites and SSA value-flow edges of tokenizer, parser and gosqlx, regenerated from go/ssa every run; instance lemmas by complete vm_compute evaluation) + implementation sweep of every failing entry point with property oracles + chain-shape correspondence evaluated in Coq',
     text="Theorems C13_structured_reachable (every error value that can arrive at an entry point of the three packages is a context error or exposes through errors.As a structured error whose code is of the family of the site that built it: tokenizer sites E1xxx, parser sites E2xxx/E4xxx, limit checks their dedicated E1006/E1007/E2007), C13_cause_reachable (every error that went into the making of a returned error is on its Unwrap chain: no site rebuilds an error from another error's text), C13_origin_code_exposed (the originating code, e.g. a limit code, is exposed along the chain), proved generically over any site table and instantiated on the table regenerated from the current source (bare fmt.Errorf / errors.New / untracked values, wrong-family codes, re-wrap-by-text sites and limit checks without their code break an instance lemma); exception lists = the call sites of known_findings.d/C13.json. Every rejected input of the generators (single-token corruptions, lexical garbage, limit violations) goes through 27 failing entry points three times: errors.As, family vs. rejecting stage, non-empty message, location inside the input, identical code/message/location, text-embedded causes reachable; each observed Unwrap chain shape must be derivable in the model (C13_observed_shape_derivable makes the evaluator sound).",
-    note=common.BASE_NOTE + "Error-site translator tools/gotables/errsites.go (SSA value flow of error results: phis, captured cells, struct fields, globals, parameters over the static call graph; dynamic calls and external callees become 'unknown' nodes that fail the instance lemma if they reach an entry point). Reproducibility and location clauses are exploration-level (sweep on the implementation); message texts of pkg/errors builders are taken as given.",
+    note=common.BASE_NOTE + "Error-site translator tools/gotables/errsites.go (SSA value flow of error results: phis, captured cells, struct fields, globals, parameters over the static call graph; calls through function values are followed to every function the value can evaluate to when those can be enumerated (tools/gotables/funcvals.go: closed-world walk over the stores of the module, cross-checked against a VTA call graph), otherwise they, like external callees, become 'unknown' nodes that fail the instance lemma if they reach an entry point). Reproducibility and location clauses are exploration-level (sweep on the implementation); message texts of pkg/errors builders are taken as given.",
     design='6/C13')
 
 THEOREMS = ["Props.C13.C13_structured_reachable", "Props.C13.C13_cause_reachable", "Props.C13.C13_origin_code_exposed",
@@ -453,7 +453,7 @@ def run(tier):
                       "nesting beyond the limit through %s self-embedding productions, input one byte / one token past MaxInputSize / MaxTokens; each through every failing entry point "
                       "(27; 9 for the big inputs), three calls each; non-trivial = rejected by at least one entry point (counted)" % ("10" if tier == "quick" else "all 45+"))
     rp.cov["samples"] = [{"id": o["id"], "stage": o["stage"], "first": (o["eps"][0]["obs"].get("chain") if o["eps"] else None)} for o in outs[:3]]
-    rp.assumptions = ["the static call graph and SSA value flow see every way an error value reaches a return (reflection, unsafe and cgo are not used by these packages); dynamic call sites produce 'unknown' nodes",
+    rp.assumptions = ["the static call graph and SSA value flow see every way an error value reaches a return (reflection, unsafe and cgo are not used by these packages); call sites through function values whose targets cannot be enumerated in a closed world produce 'unknown' nodes",
                       "pkg/errors builders are summarised by their code and cause parameter (summaries recomputed from SSA every run)",
                       "errors.As / errors.Is / errors.Unwrap behave as documented for chains of *errors.Error, fmt wrap errors and ParseError"]
     return rp.finish()
